@@ -100,6 +100,38 @@ def c18rst (a : List String) (obs : String) : String × String :=
         let sa := joinItems ia; let sb := joinItems ib
         (s!"same={if sa == sb then 1 else 0} size={w2.size} fsize={f.size} a={sa} b={sb} hmasks={getF obs "hmasks"} masks={getF obs "masks"}",
           if getF obs "size" != getF obs "fsize" then "skip" else verdict)
+  | "pool2" :: sd :: op :: ctor :: fail :: _seed :: hist :: sd2 :: n :: after :: [] =>
+    let hm := parseMaskList (getF obs "hmasks"); let am := parseMaskList (getF obs "masks")
+    let e : Env := { dst := { failAt := if fail == "-" then none else some (natOr fail) }, masks := hm }
+    match mkWr (sd == "C") (natOr op) ctor with
+    | none => ("PANIC", verdict)
+    | some w0 =>
+      match runHist w0 e (toks hist) with
+      | none => ("PANIC", verdict)
+      | some (w1, _) =>
+        -- PutWriter: Reset(nil, 0, 0), then filed under Size() if that is one of the pool's classes
+        let cls := poolCeil (natOr n)
+        let isClass (x : Nat) : Bool := [128, 256, 512, 1024, 2048, 4096, 8192, 16384, 32768, 65536].contains x
+        let pooled : Option Wr := match w1.reset false 0 with
+          | some wp => if isClass wp.size && wp.size == cls then some wp else none
+          | none => none
+        let got : Option Wr := match pooled with
+          | some wp => wp.reset (sd2 == "C") (natOr op)
+          | none => getWriter (sd2 == "C") (natOr op) (natOr n)
+        match got with
+        | none => ("PANIC", verdict)
+        | some w2 =>
+          let ia := wrRun w2 { masks := am } (toks after) []
+          match newWriterSize (sd2 == "C") (natOr op) w2.size, getWriter (sd2 == "C") (natOr op) (natOr n) with
+          | some f, some fresh =>
+            let ib := wrRun f { masks := am } (toks after) []
+            let sa := joinItems ia; let sb := joinItems ib
+            let osize := natOr (getF obs "size")
+            (s!"same={if sa == sb then 1 else 0} size={w2.size} fsize={f.size} a={sa} b={sb} hmasks={getF obs "hmasks"} masks={getF obs "masks"}",
+              -- what the pool hands out for class n is never smaller than a new writer of that class
+              if osize < fresh.size then "bad:pooled-writer-smaller-than-a-new-one-of-the-requested-class"
+              else if getF obs "size" != getF obs "fsize" then "skip" else verdict)
+          | _, _ => ("PANIC", verdict)
   | ["u8", h, k, af, k2] =>
     let (u1, _) := u8ReadAll {} (srcOf (hexOrEmpty h) (natOr k) "E") 16 10000 []
     let _ := u1
